@@ -478,8 +478,10 @@ def run_shards(ctx, imports, cases):
     exact = [i for i, c in enumerate(cases) if c.kind != "ENCLOSURE"]
     encl = [i for i, c in enumerate(cases) if c.kind == "ENCLOSURE"]
     jobs = []
-    for s in range(0, len(exact), SHARD):
-        jobs.append(("X", exact[s:s + SHARD]))
+    # a generator whose cases are individually heavy (exact Gauss-Jordan per case, ...) may ask for smaller shards
+    shard = int(getattr(sys.modules.get("gen_" + pid), "SHARD_SIZE", 0) or SHARD)
+    for s in range(0, len(exact), shard):
+        jobs.append(("X", exact[s:s + shard]))
     ENC_SHARD = 60
     for s in range(0, len(encl), ENC_SHARD):
         jobs.append(("E", encl[s:s + ENC_SHARD]))
